@@ -361,6 +361,6 @@ func verif_client_Open(c *defaultConnectorImpl) {
 		if enabled {
 			verif.Ensures(verif.CalledWith(evCfg, 0, t.TLS.CertFile) && verif.CalledWith(evCfg, 1, t.TLS.KeyFile) && verif.CalledWith(evCfg, 2, t.TLS.TrustedCaFile), "built_from_the_configured_identity_material")
 		}
-		verif.Ensures(verif.CalledWith("quic.DialAddr", 2, verif.Ret[*tls.Config](evCfg, 0)), "quic_dialled_with_that_configuration")
+		verif.Ensures(verif.CalledWith("quic-go.DialAddr", 2, verif.Ret[*tls.Config](evCfg, 0)), "quic_dialled_with_that_configuration")
 	}
 }
